@@ -5,14 +5,14 @@ GROUPS = ['acn']
 CXX_SOURCES = []
 HARNESS = 'h_acn.cpp'
 COQ_FILES = ['GenAcn.v', 'Acn.v']
-EXTRACT = ['acn_handle', 'ACN_MAX_DATAGRAM']
+EXTRACT = ['track_events', 'decode_address', 'acn_handle', 'ACN_MAX_DATAGRAM']
 RULE = ('E1.31: valid data packets (current and rev2 framing) and discovery pages (0-680 universes) built from the '
         'layout x per PDU level (root/E1.31/DMP): 2- vs 3-byte length field, length field -7..+100 around the real '
         'length, absolute lengths 0..header size+2 and 0xfff/0xfffff, every V/H/D flag combination with and without a '
         'previous PDU in the block, blocks ending inside a length field, wrong vectors, zero CID x DMP address '
         'type/size nibbles, increment, number of slots (0, n-1..n+2, 512-514, 0xffff), start codes, options, '
         'priorities 199-201, universes x DMP data cut at 0/1/5/6/7/8 bytes x >512 slots (clamp) x DMP PDUs ending exactly at each field boundary with consistent outer lengths after a full packet for '
-        'the same/another universe x blocks of 2-3 PDUs per layer whose last PDU claims remaining-1/remaining/+1/+40/its untruncated length/block/block+1 with V/H inheritance flags varied, after a longer datagram x 2-4 CIDs merged at one priority then a priority raise by the source tracked first/second/last, followed by datagrams from the raiser and the dropped sources (handler buffer, active priority and per-source buffers compared with the model after every datagram) x source names of LEN-2/LEN-1/LEN non-NUL bytes followed by non-zero bytes (decoded source name observed at HandlePDUData and the discovery callback) x E1.33 (RPT) / LLRP packets (root -> framing header -> RDM PDU) with the same '
+        'the same/another universe x blocks of 2-3 PDUs per layer whose last PDU claims remaining-1/remaining/+1/+40/its untruncated length/block/block+1 with V/H inheritance flags varied, after a longer datagram x 2-4 CIDs merged at one priority then a priority raise by the source tracked first/second/last, followed by datagrams from the raiser and the dropped sources (handler buffer, active priority and per-source buffers compared with the model after every datagram) x source names of LEN-2/LEN-1/LEN non-NUL bytes followed by non-zero bytes (decoded source name observed at HandlePDUData and the discovery callback) x universe-discovery page histories of up to 258 datagrams driving the 8-bit page counters to 0/1/2/127/128/254/255 (all pages, shuffled, one missing/duplicated/beyond last, 1-2 CIDs) with E131Node::GetKnownControllers() compared after every datagram x E1.33 (RPT) / LLRP packets (root -> framing header -> RDM PDU) with the same '
         'length/flag/vector mutations x every truncation '
         'length 0-139 and around the end x datagrams of capacity-1/capacity/capacity+1/1600 bytes with consistent '
         'and inconsistent lengths x discovery pages with an odd payload length x 3-9 packet sequences from several '
@@ -21,7 +21,7 @@ RULE = ('E1.31: valid data packets (current and rev2 framing) and discovery page
         'unallocated/short/full buffers; ignore_preview on/off')
 TRUSTED = ['modelled rather than verified: IncomingUDPTransport::Receive, BaseInflator::InflatePDUBlock/DecodeLength/'
            'DecodeVector/InflatePDU, Root/E131/E131Rev2/DMP Inflator::DecodeHeader, E131DiscoveryInflator (after fixes/02), E133Inflator/LLRPInflator/RDMInflator DecodeHeader+HandlePDUData (added to the root inflator by the harness; olad does not listen with them), '
-           'DMPE131Inflator::HandlePDUData/TrackSourceIfRequired with DecodeAddress for TWO_BYTES/RANGE_EQUAL, '
+           'E131Node::NewDiscoveryPage/TrackedSource::NewPage/GetKnownControllers (a real E131Node with enable_draft_discovery receives the discovery callbacks), DMPE131Inflator::HandlePDUData/TrackSourceIfRequired with DecodeAddress for TWO_BYTES/RANGE_EQUAL, '
            'DmxBuffer::Set/Reset/HTPMerge',
            'E1.31 source expiry (2.5 s of silence) is not modelled: a case is handled within milliseconds',
            'E1.31 source names are decoded by the code but not observed (no output depends on them in this chain)',
@@ -64,6 +64,8 @@ def gen_consts(v):
         ('DMP_TYPE_MASK', a + 'DMPHeader::TYPE_MASK'),
         ('DMP_SIZE_MASK', a + 'DMPHeader::SIZE_MASK'),
         ('DMP_TWO_BYTES', a + 'TWO_BYTES'),
+        ('DMP_ONE_BYTES', a + 'ONE_BYTES'), ('DMP_FOUR_BYTES', a + 'FOUR_BYTES'), ('DMP_RES_BYTES', a + 'RES_BYTES'),
+        ('DMP_NON_RANGE', a + 'NON_RANGE'),
         ('DMP_ADDR_UNIT', a + 'DMPSizeToByteSize(' + a + 'TWO_BYTES)'),
         ('DMP_RANGE_EQUAL', a + 'RANGE_EQUAL'),
         ('VECTOR_ROOT_E131', a + 'VECTOR_ROOT_E131'),
@@ -482,6 +484,40 @@ def prio_raise(rng, quick):
                 yield '0,1:%s' % rng.choice(['none', hx([9] * 512)]), dgs
 
 
+def disc_histories(rng, quick):
+    """yield lists of datagrams: universe-discovery page sequences that drive the 8-bit page counters to their limits:
+    last_page in {0, 1, 2, 127, 128, 254, 255}, all pages 0..last in order / shuffled / one missing / one duplicated /
+    page > last, then one more page after completion; one or two CIDs; E131Node::GetKnownControllers() is compared
+    after every datagram"""
+    lasts = [0, 1, 2, 127, 128, 254, 255]
+    for last in lasts:
+        kinds = ['all', 'shuffled', 'missing', 'dup', 'beyond']
+        if quick:
+            kinds = ['all'] + ([rng.choice(kinds[1:])] if last < 100 else [])
+        for kind in kinds:
+            pages = list(range(last + 1))
+            if kind == 'shuffled':
+                rng.shuffle(pages)
+            elif kind == 'missing' and last > 0:
+                pages.remove(rng.randrange(last + 1))
+            elif kind == 'dup':
+                pages.insert(rng.randrange(len(pages)), rng.choice(pages))
+            elif kind == 'beyond':
+                pages.insert(rng.randrange(len(pages)), min(255, last + 1))
+            cids = [cid_of(1)] if rng.random() < 0.7 else [cid_of(1), cid_of(2)]
+            dgs = []
+            for pg in pages:
+                cid = rng.choice(cids)
+                dgs.append(P(rng, kind='disc', cid=cid, page=pg, last=last,
+                             unis=[(pg * 3 + k) & 0xffff for k in range(rng.choice([0, 1, 2]))],
+                             name=list(b'ctl%d' % cid[15])).build())
+            # after completion: one more page, and a page with another last_page
+            dgs.append(P(rng, kind='disc', cid=cids[0], page=0, last=last, unis=[7], name=list(b'again')).build())
+            dgs.append(P(rng, kind='disc', cid=cids[0], page=rng.choice([0, 1, 255]), last=rng.choice([0, 1, 255]),
+                         unis=[9], name=list(b'ctl1')).build())
+            yield dgs
+
+
 def odd_disc(rng):
     """discovery pages whose universe list has an odd number of bytes (fixes/02)"""
     v = P(rng, kind='disc', unis=[1, 2])
@@ -517,8 +553,18 @@ def earlier(rng):
     return out
 
 
+OPS = ['dmpaddr']
+
+
 def gen_cases(rng, tier):
     quick = tier == 'quick'
+    # DecodeAddress directly, for the only combination a received datagram can reach (DMPE131Inflator::HandlePDUData
+    # returns unless Size() == TWO_BYTES && Type() == RANGE_EQUAL): every data length around the 6 address bytes.
+    # (The NON_RANGE two-/four-byte cases over-read in the unchanged tree - a latent defect of the library function,
+    # outside the property; see fixes-optional-not-applied/03.)
+    for n in list(range(0, 14)) + [64, 513]:
+        for _k in range(1 if quick else 8):
+            yield 'dmpaddr 1 2 %s' % hx([rng.randrange(256) for _ in range(n)])
     for _ in range(1 if quick else 30):
         for kind in ('data', 'rev2', 'disc'):
             for cls, dg in mutants(rng, quick, kind):
@@ -532,6 +578,9 @@ def gen_cases(rng, tier):
             yield 'acn %s %s' % (cfg, ' '.join(dgs))
         for cfg, dgs in prio_raise(rng, quick):
             yield 'acn %s %s' % (cfg, ' '.join(dgs))
+    for _ in range(1 if quick else 4):
+        for dgs in disc_histories(rng, quick):
+            yield 'acn %s %s' % (config(rng), ' '.join(hx(d) for d in dgs))
     for _ in range(1 if quick else 10):
         for dgs in rpt_cases(rng, quick):
             yield 'acn %s %s' % (config(rng), ' '.join(hx(d) for d in dgs))
@@ -566,6 +615,8 @@ def gen_cases(rng, tier):
 
 
 def nontrivial(payload, md):
+    if payload.startswith('dmpaddr'):
+        return 'a:null' not in md.get('s0', 'a:null')
     for k, v in md.items():
         if k.startswith('s') and v.startswith('e:'):
             evs = v[2:].split('|')[0].split('+')
